@@ -23,6 +23,16 @@ def kind_of(v):
     return "o"
 
 
+class OptionalValue:
+    """value of an optional field inside a quantified (branch-free) context: present iff `has`; only `is None` tests are supported"""
+
+    def __init__(self, has):
+        self.has = has
+
+    def sym_is_none(self, ex):
+        return z3.Not(self.has)
+
+
 class ExprMixin:
     def eval(self, e, env, cls):
         m = getattr(self, "e_" + type(e).__name__, None)
@@ -530,7 +540,14 @@ class ExprMixin:
             if kind == "ref":
                 return SRef(f(o.t), spec[1] or sch)
             if kind in ("optref", "optint", "optreal", "optstr"):
-                if not self.branch(f[0](o.t)):
+                if getattr(self, "pure", 0):
+                    # branch-free context: decide if the assumptions do, otherwise hand out a value that can only be tested for None
+                    t_ok, f_ok = self.feasible(f[0](o.t)), self.feasible(z3.Not(f[0](o.t)))
+                    if t_ok and f_ok:
+                        return OptionalValue(f[0](o.t))
+                    if not t_ok:
+                        return None
+                elif not self.branch(f[0](o.t)):
                     return None
                 if kind == "optref":
                     return SRef(f[1](o.t), spec[1] or sch)
